@@ -476,6 +476,13 @@ compute_image_info (pixman_image_t *image)
 	if (image->bits.read_func || image->bits.write_func)
 	    flags &= ~FAST_PATH_NO_ACCESSORS;
 
+	/* An image without pixels has no pixel that could be addressed
+	 * directly either: it is left to the general fetchers, which test
+	 * every coordinate before they use it.
+	 */
+	if (image->bits.width <= 0 || image->bits.height <= 0)
+	    flags &= ~FAST_PATH_NO_ACCESSORS;
+
 	if (PIXMAN_FORMAT_IS_WIDE (image->bits.format))
 	    flags &= ~FAST_PATH_NARROW_FORMAT;
 
